@@ -75,6 +75,9 @@ pub enum ErrShape {
     Timeout,
     CursorNotFound,
     Other(String),
+    /// an error variant this harness does not know (crux grew one): carries its Debug form and is
+    /// never part of a response alphabet, so it never equals a reference prediction
+    Unknown(String),
 }
 
 #[derive(Clone, Debug, PartialEq, Eq, PartialOrd, Ord, Serialize, Deserialize)]
@@ -187,6 +190,8 @@ pub mod app {
             KeyValueError::Timeout => ErrShape::Timeout,
             KeyValueError::CursorNotFound => ErrShape::CursorNotFound,
             KeyValueError::Other { message } => ErrShape::Other(message.clone()),
+            #[allow(unreachable_patterns)]
+            other => ErrShape::Unknown(format!("{other:?}")),
         }
     }
 
@@ -299,6 +304,7 @@ fn typed_err(e: &ErrShape) -> KeyValueError {
         ErrShape::Timeout => KeyValueError::Timeout,
         ErrShape::CursorNotFound => KeyValueError::CursorNotFound,
         ErrShape::Other(message) => KeyValueError::Other { message },
+        ErrShape::Unknown(what) => mc_kit::machinery_error(&format!("the harness never sends an unknown error ({what})")),
     }
 }
 
@@ -388,6 +394,7 @@ fn bincode_result(op: &OpShape, resp: &RespShape) -> Vec<u8> {
                     put_u32(&mut out, 3);
                     put_bytes(&mut out, m.as_bytes());
                 }
+                ErrShape::Unknown(what) => mc_kit::machinery_error(&format!("the harness never sends an unknown error ({what})")),
             }
         }
         _ => {
@@ -458,6 +465,7 @@ fn json_result(op: &OpShape, resp: &RespShape) -> Value {
                 ErrShape::Timeout => json!("timeout"),
                 ErrShape::CursorNotFound => json!("cursorNotFound"),
                 ErrShape::Other(m) => json!({"other": {"message": m}}),
+                ErrShape::Unknown(what) => mc_kit::machinery_error(&format!("the harness never sends an unknown error ({what})")),
             };
             json!({"Err": {"error": e}})
         }
@@ -534,6 +542,8 @@ fn show_op(op: &KeyValueOperation) -> String {
         KeyValueOperation::Delete { key } => format!("Delete {{ key: {:?} }}", shorten(key)),
         KeyValueOperation::Exists { key } => format!("Exists {{ key: {:?} }}", shorten(key)),
         KeyValueOperation::ListKeys { prefix, cursor } => format!("ListKeys {{ prefix: {:?}, cursor: {cursor} }}", shorten(prefix)),
+        #[allow(unreachable_patterns)]
+        other => format!("<operation unknown to the harness: {other:?}>"),
     }
 }
 
@@ -910,6 +920,7 @@ fn class_of_resp(r: &RespShape) -> &'static str {
         RespShape::Err(ErrShape::Timeout) => "timeout",
         RespShape::Err(ErrShape::CursorNotFound) => "cursor not found",
         RespShape::Err(ErrShape::Other(_)) => "other error",
+        RespShape::Err(ErrShape::Unknown(_)) => "unknown error",
     }
 }
 
